@@ -88,6 +88,9 @@ type EnvOpts struct {
 	Contextualizer  ketoctx.Contextualizer
 	Extra           map[string]any
 	LogLevel        string
+	// ConfigFile: a configuration file the provider loads and WATCHES (hot reload),
+	// next to the values above (which win over the file)
+	ConfigFile string
 }
 
 type Env struct {
@@ -174,7 +177,11 @@ func newEnv(t testing.TB, o EnvOpts) (*Env, error) {
 
 	ctx, cancel := context.WithCancel(context.Background())
 	e.Cancel = cancel
-	cfgCtx := configx.ContextWithConfigOptions(ctx, configx.WithValues(values))
+	cfgOpts := []configx.OptionModifier{configx.WithValues(values)}
+	if o.ConfigFile != "" {
+		cfgOpts = append(cfgOpts, configx.WithConfigFiles(o.ConfigFile))
+	}
+	cfgCtx := configx.ContextWithConfigOptions(ctx, cfgOpts...)
 	opts := []ketoctx.Option{ketoctx.WithLogger(l)}
 	if o.Contextualizer != nil {
 		opts = append(opts, ketoctx.WithContextualizer(o.Contextualizer))
